@@ -43,12 +43,15 @@ FetchBad(e) ==
   ELSE First(<<
     <<~MayReturn(x), "fetch: manifest returned although the governing digest does not name the served bytes">>,
     <<Governing(x) # "absent" /\ e.rep_digest # DigestOf(Governing(x), e), "fetch: reported digest is not the expected digest">>,
-    <<~Names(e.rep_digest, e.canon_sha256, e.canon_sha512), "descriptor: digest is not the hash of the raw bytes">>,
+    \* the digest names the raw bytes (or, for a signed schema1 document, its payload; a signed body served
+    \* under another content type is an unsigned document of that type: then the raw bytes)
+    <<~(Names(e.rep_digest, e.canon_sha256, e.canon_sha512) \/ Names(e.rep_digest, e.served_sha256, e.served_sha512)),
+      "descriptor: digest is not the hash of the raw bytes">>,
     <<e.rep_size \notin {e.canon_len, e.raw_len}, "descriptor: size is not the length of the raw bytes">>,
-    <<e.raw_sha256 # e.served_sha256, "raw: RawBody() differs from the served bytes">>,
-    <<e.mj_sha256 # e.served_sha256, "raw: MarshalJSON() differs from the served bytes">>,
+    <<e.raw_sha256 # e.servedp_sha256, "raw: RawBody() differs from the served bytes">>,
+    <<e.mj_sha256 # e.servedp_sha256, "raw: MarshalJSON() differs from the served bytes">>,
     <<e.body_mt # "" /\ e.rep_mt # e.body_mt, "mediatype: reported media type contradicts the body">>,
-    <<e.put_done = 1 /\ e.put_sha256 # e.served_sha256, "raw: re-push sent different bytes">>,
+    <<e.put_done = 1 /\ e.put_sha256 # e.servedp_sha256, "raw: re-push sent different bytes">>,
     <<e.put_done = 1 /\ e.put_digest # e.rep_digest, "raw: re-push changed the digest">> >>)
 
 G(e) == [ann |-> e.g_ann, config |-> e.g_config, layers |-> e.g_layers, mlist |-> e.g_mlist, subject |-> e.g_subject]
